@@ -52,6 +52,46 @@ def hirq_features(f, node):
     return hirq.features(f, node, hirq.lets(f))
 
 
+def rule_param_pair(db, rep):
+    """R-PARAM-PAIR (finding F26; shared with C12): wherever call arguments are paired positionally with the parameters of a
+    signature, parameters that have a default (padding) are skipped, as they are in the argument count"""
+    from rules import hirq
+    rep.rule("R-PARAM-PAIR", "arguments are paired with the parameters that take one: every zip of call arguments with Signature::params filters out "
+                             "parameters with a default (padding), consistently with Signature::min_args / max_args")
+    sites = 0
+    for fid in ("context::defs::Signature::match_params_to_args", E + "check_expr_call"):
+        f = db.fn(fid)
+        rep.fn(f)
+        L = hirq.lets(f)
+        for n in hir_walk(f.hir):
+            if n.get("k") not in ("Call", "MCall"):
+                continue
+            c = n.get("f") or ""
+            if not (c.endswith("Iterator::zip") or c.endswith("itertools::zip") or c.endswith("::multizip") or c.endswith("izip")):
+                continue
+            sides = ([n["r"]] if n.get("k") == "MCall" else []) + list(n.get("a", []))
+            for side in sides:
+                feats = hirq.features(f, side, L)
+                if not any(t == "field" and v == "params" for t, v in feats):
+                    continue
+                sites += 1
+                ok = hirq.has_call(feats, "Iterator::filter") and any(t == "field" and v == "default" for t, v in
+                                                                       set().union(*[hirq.features(f, cl, L) for cl in hir_walk(side) if cl.get("k") == "Closure"] or [set()]))
+                rep.check(ok, "R-PARAM-PAIR", "%s|params side of zip" % fid.rsplit("::", 1)[-1], "%s:%d" % (f.file, n.get("ln", f.line)),
+                          "parameters with a default are filtered out before pairing",
+                          "%s pairs the arguments with ALL parameters of the signature: the argument after a padding parameter is checked against the padding "
+                          "(a signature like `S_f` or the built-in `Sb(imm)---fff` cannot be called)" % fid.rsplit("::", 1)[-1])
+    ma = db.fn("context::defs::Signature::min_args")
+    rep.fn(ma)
+    fm = hirq.features(ma, ma.hir, hirq.lets(ma))
+    for cl in hir_walk(ma.hir):
+        if cl.get("k") == "Closure":
+            fm |= hirq.features(ma, cl["b"], {})
+    rep.check(any(t == "field" and v == "default" for t, v in fm), "R-PARAM-PAIR", "min_args|counts parameters without default", ma.loc,
+              "the argument count excludes parameters with a default", "Signature::min_args no longer looks at `default`")
+    rep.floor("positional pairings of arguments with Signature::params", sites, 2)
+
+
 def rule_partial_iter(db, rep):
     """R-PARTIAL-ITER: shared with C04 (an unchecked child reaches passes that panic on type errors)"""
     # ---------------- no partial iteration over AST children in the checker
@@ -269,6 +309,7 @@ def run(db, tier):
                   "%s can return normally without calling %s (%s)%s" % (fn_id, callee_id, why, "" if bad_ret is None else "; offending return in bb%d" % bad_ret))
 
     rule_partial_iter(db, rep)
+    rule_param_pair(db, rep)
 
     # ---------------- arity / parameter types (MIR)
     f = db.fn(E + "check_expr_call")
